@@ -214,6 +214,71 @@ theorem append_cap_aligned (h : Heap) (dst src : Buf) (self : Bool) (g : Nat) (h
     simp only [Bool.and_eq_true, Bool.or_eq_true, decide_eq_true_eq, beq_iff_eq] at hg'
     exact ⟨rfl, hg'.1, hg'.2, rfl⟩
 
+/-! ### growth by whole frames (the repaired `Append`)
+
+The runtime may deliver *any* capacity `c ≥ need` for `append(data, make([]D, grow)...)`; the code then
+cuts it to `c - c % ch`.  With `need` rounded up to whole frames (`needFrames`) every such `c` gives an
+admissible capacity; without the rounding (the code before the repair) `c = newLen` is a raw capacity
+for which the aligned capacity falls below the length whenever `newLen` is not a whole number of
+frames - the panic of known-findings entry `C03-partial-frame-growth`. -/
+
+/-- the number of samples the repaired `Append` asks the runtime for: the new length completed to a
+whole number of frames -/
+def needFrames (ch newLen : Nat) : Nat :=
+  if ch ≠ 0 ∧ newLen % ch ≠ 0 then newLen + (ch - newLen % ch) else newLen
+
+theorem needFrames_spec (ch newLen : Nat) :
+    newLen ≤ needFrames ch newLen ∧ (ch = 0 ∨ needFrames ch newLen % ch = 0) := by
+  unfold needFrames
+  by_cases h : ch ≠ 0 ∧ newLen % ch ≠ 0
+  · rw [if_pos h]
+    obtain ⟨h0, h1⟩ := h
+    have hlt : newLen % ch < ch := Nat.mod_lt _ (Nat.pos_of_ne_zero h0)
+    refine ⟨by omega, Or.inr ?_⟩
+    have hd := Nat.div_add_mod newLen ch
+    have e : newLen + (ch - newLen % ch) = ch * (newLen / ch + 1) := by
+      rw [Nat.mul_add, Nat.mul_one]; omega
+    rw [e]; exact Nat.mul_mod_right _ _
+  · rw [if_neg h]
+    refine ⟨Nat.le_refl _, ?_⟩
+    by_cases h0 : ch = 0
+    · exact Or.inl h0
+    · right
+      exact Decidable.byContradiction fun hc => h ⟨h0, hc⟩
+
+/-- **every raw capacity the runtime may deliver is admissible after alignment** (repaired code) -/
+theorem grow_whole_frames_admissible (dst src : Buf) (c : Nat)
+    (hc : needFrames dst.ch (dst.len + src.len) ≤ c) :
+    growOK dst src (alignCap dst.ch c) = true := by
+  obtain ⟨h1, h2⟩ := needFrames_spec dst.ch (dst.len + src.len)
+  unfold growOK alignCap
+  simp only [Bool.and_eq_true, Bool.or_eq_true, decide_eq_true_eq, beq_iff_eq]
+  by_cases h0 : dst.ch = 0
+  · simp only [h0, if_true]; exact ⟨by omega, Or.inl trivial⟩
+  · simp only [h0, if_false]
+    rcases h2 with h2 | h2
+    · exact absurd h2 h0
+    · have hpos : 0 < dst.ch := Nat.pos_of_ne_zero h0
+      -- the request is a multiple of ch and at most c, so it is at most c - c % ch
+      obtain ⟨q, hq⟩ := Nat.dvd_of_mod_eq_zero h2
+      have hcd := Nat.div_add_mod c dst.ch
+      have hqle : q ≤ c / dst.ch := by
+        rw [Nat.le_div_iff_mul_le hpos, Nat.mul_comm]; rw [← hq]; exact hc
+      have : dst.ch * q ≤ dst.ch * (c / dst.ch) := Nat.mul_le_mul_left _ hqle
+      refine ⟨by omega, Or.inr ?_⟩
+      have e : c - c % dst.ch = dst.ch * (c / dst.ch) := by omega
+      rw [e]; exact Nat.mul_mod_right _ _
+
+/-- **the code before the repair**: asking for exactly the new length admits a raw capacity whose
+alignment falls below the length - for every new length that is not a whole number of frames -/
+theorem unrepaired_growth_counterexample (ch newLen : Nat) (h0 : ch ≠ 0) (hp : newLen % ch ≠ 0) :
+    alignCap ch newLen < newLen := by
+  unfold alignCap
+  simp only [h0, if_false]
+  have : 0 < newLen % ch := Nat.pos_of_ne_zero hp
+  have : newLen % ch ≤ newLen := Nat.mod_le _ _
+  omega
+
 example :
     let h : Heap := [[1, 2, 3, 4, 0, 0]]
     let b : Buf := { ch := 2, blk := 0, off := 0, len := 4, cap := 6, kind := .i8, depth := 8 }
